@@ -123,15 +123,19 @@ ProgLists == {PL("absent", <<>>), PL("null", <<>>), PL("list", <<>>), PProgs, PL
 Methods == {"POST", "GET", "HEAD", "PUT", "DELETE", "PATCH", "OPTIONS", "post"}
 (* body length classes: lenc names the class, len is its nominal length.     *)
 (* pad says where the filler goes: inside the (unvalidated) LastWeek string  *)
-(* or as blanks before the JSON value                                        *)
-LenC(c, n, pad) == [lenc |-> c, len |-> n, pad |-> pad]
-PLen == LenC("small", 0, "none")
-Lens == {PLen, LenC("lim-1", MCLimit - 1, "lastweek"), LenC("lim", MCLimit, "lastweek"), LenC("lim+1", MCLimit + 1, "lastweek"),
-         LenC("3lim", 3 * MCLimit, "lastweek"), LenC("lim", MCLimit, "lead"), LenC("lim+1", MCLimit + 1, "lead")}
+(* or as blanks before the JSON value.  declared says whether the request    *)
+(* announces its length (Content-Length) or not (chunked, length unknown).   *)
+LenC(c, n, pad, decl) == [lenc |-> c, len |-> n, pad |-> pad, declared |-> decl]
+PLen == LenC("small", 0, "none", TRUE)
+Lens == {PLen, LenC("small", 0, "none", FALSE)}
+        \cup {LenC("lim-1", MCLimit - 1, "lastweek", d) : d \in BOOLEAN}
+        \cup {LenC("lim", MCLimit, p, d) : p \in {"lastweek", "lead"}, d \in BOOLEAN}
+        \cup {LenC("lim+1", MCLimit + 1, p, d) : p \in {"lastweek", "lead"}, d \in BOOLEAN}
+        \cup {LenC("3lim", 3 * MCLimit, "lastweek", d) : d \in BOOLEAN}
 
 (* ---- requests -------------------------------------------------------------- *)
 Mk(t, tag) == [kind |-> "report", gshape |-> "-", method |-> t[1], week |-> t[2], config |-> t[3], x |-> t[4],
-               pform |-> t[5].pform, programs |-> t[5].programs, lenc |-> t[6].lenc, len |-> t[6].len, pad |-> t[6].pad, tag |-> tag]
+               pform |-> t[5].pform, programs |-> t[5].programs, lenc |-> t[6].lenc, len |-> t[6].len, pad |-> t[6].pad, declared |-> t[6].declared, tag |-> tag]
 Prim == <<"POST", PWeek, PConfig, PX, PProgs, PLen>>
 Dom == <<Methods, Weeks, Configs, Xs, ProgLists, Lens>>
 (* all requests that deviate from Prim in exactly the positions S *)
@@ -144,9 +148,9 @@ GShapes == {"empty", "nobody", "notjson", "binary", "form", "truncated", "trunca
             "wrongtype-x", "wrongtype-config", "wrongtype-programs", "wrongtype-program", "wrongtype-counters", "wrongtype-counter",
             "counter-float", "counter-overflow", "array", "string", "number", "null", "emptyobj", "true", "deep"}
 Garbage == {[kind |-> "garbage", gshape |-> g, method |-> m, week |-> PWeek, config |-> PConfig, x |-> PX,
-             pform |-> "absent", programs |-> <<>>, lenc |-> l.lenc, len |-> l.len, pad |-> l.pad, tag |-> 0] :
+             pform |-> "absent", programs |-> <<>>, lenc |-> l.lenc, len |-> l.len, pad |-> l.pad, declared |-> l.declared, tag |-> 0] :
                g \in GShapes, m \in {"POST", "GET", "PUT"},
-               l \in {PLen, LenC("3lim", 3 * MCLimit, "garbage")}}
+               l \in {PLen, LenC("3lim", 3 * MCLimit, "garbage", TRUE), LenC("3lim", 3 * MCLimit, "garbage", FALSE)}}
 
 (* request sets of the state-machine runs (ServerReq1, ServerReqSim); the     *)
 (* large sets of the vector runs are enumerated lazily in ServerVec.tla      *)
